@@ -293,6 +293,16 @@ func TestCheck(t *testing.T) {
 	defer run.Finish()
 	run.Rule("federation layouts (owner assignment of every root and non-key entity field within Hamming distance d of a by-type base layout, 2-3 subgraphs, plus the monolith) x all selection trees below the width/depth bounds x every single decoration at every site; distinct = distinct (operation, layout) response/request-count outcomes")
 	run.Assume("reference executor R1 (internal/refexec) and subgraph simulator R2 (internal/fedlab) implement the GraphQL execution semantics; layouts are satisfiable by construction; the data universe is consistent")
+	// binding of the mini-composer to the two router configurations composed by
+	// the real Cosmo composition that ship in the repository (infrastructure
+	// precondition: a difference is a broken harness, not a verdict)
+	for _, p := range []string{"/repo/execution/engine/testdata/config_factory_federation/config.json", "/repo/execution/federationtesting/config.json"} {
+		diffs, err := fedlab.BindComposer(p)
+		if err != nil || len(diffs) > 0 {
+			t.Fatalf("mini-composer is not bound to %s: %v %v", p, err, diffs)
+		}
+	}
+	run.Count("composer_binding_configs", 2)
 	fams := families(run)
 	if run.Replay != "" {
 		var in struct {
